@@ -11,10 +11,13 @@
 import EasyNet.Drv.Framing
 open EasyNet.Drv
 
+/-- one runner per model family; each returns `none` for model names it does not know -/
+def runners : List (String → List String → List String → Option (List String)) :=
+  [ runFraming
+  ]
+
 def dispatch (model : String) (cfg : List String) (ops : List String) : Option (List String) :=
-  match runFraming model cfg ops with
-  | some r => some r
-  | none => none
+  runners.findSome? (fun r => r model cfg ops)
 
 partial def readLines (h : IO.FS.Stream) (acc : Array String) : IO (Array String) := do
   let line ← h.getLine
